@@ -181,6 +181,85 @@ func cmdWorker(args []string) int {
 	return 0
 }
 
+// runsIntoCrash replays a trace file in a child process and reports whether the child died with a fatal runtime
+// error inside arche code.
+func runsIntoCrash(self, path string) (bool, string) {
+	if self == "" {
+		var err error
+		self, err = os.Executable()
+		if err != nil {
+			return false, ""
+		}
+	}
+	cmd := exec.Command(self, "replay", "-q", "-child", path)
+	out, err := cmd.CombinedOutput()
+	text := string(out)
+	if err == nil || !strings.Contains(text, "github.com/mlange-42/arche/") {
+		return false, ""
+	}
+	if !strings.Contains(text, "fatal error") && !strings.Contains(text, "SIGSEGV") && !strings.Contains(text, "unexpected fault address") {
+		return false, ""
+	}
+	for _, l := range strings.Split(text, "\n") {
+		if strings.HasPrefix(l, "fatal error") || strings.Contains(l, "unexpected fault") || strings.Contains(l, "SIGSEGV") {
+			return true, l
+		}
+	}
+	return true, "fatal runtime error"
+}
+
+// crashReport turns "worker died in run k" into a confirmed, minimised crash violation (or nil).
+func crashReport(bin, prop, build string, rs uint64, thorough bool, outdir string) *workerMsg {
+	tr := sim.GenTrace(prop, rs, thorough)
+	tr.Build = build
+	tr.Property = prop
+	tr.Violation = &sim.Violation{Class: "crash", Msg: "the process died with a fatal runtime error in arche code"}
+	os.MkdirAll(outdir, 0o755)
+	path := filepath.Join(outdir, fmt.Sprintf("%s-%s-%d.json", prop, build, rs))
+	write := func(t *sim.Trace) {
+		b, _ := json.MarshalIndent(t, "", " ")
+		os.WriteFile(path, b, 0o644)
+	}
+	write(tr)
+	crashed, detail := runsIntoCrash(bin, path)
+	if !crashed {
+		os.Remove(path)
+		return nil
+	}
+	// out-of-process ddmin over the steps (bounded)
+	cur := tr
+	budget := 60
+	tmp := path + ".cand"
+	tryc := func(steps []sim.Step) bool {
+		if budget <= 0 {
+			return false
+		}
+		budget--
+		c := *cur
+		c.Steps = steps
+		b, _ := json.Marshal(&c)
+		os.WriteFile(tmp, b, 0o644)
+		ok, _ := runsIntoCrash(bin, tmp)
+		return ok
+	}
+	for chunk := len(cur.Steps) / 2; chunk >= 1 && budget > 0; chunk /= 2 {
+		for i := 0; i+chunk <= len(cur.Steps) && budget > 0; {
+			cand := append(append([]sim.Step{}, cur.Steps[:i]...), cur.Steps[i+chunk:]...)
+			if tryc(cand) {
+				c := *cur
+				c.Steps = cand
+				cur = &c
+			} else {
+				i += chunk
+			}
+		}
+	}
+	os.Remove(tmp)
+	cur.Violation.Msg = detail
+	write(cur)
+	return &workerMsg{T: "viol", Seed: rs, Class: "crash", Props: []string{prop}, Msg: detail, Replay: path, Facts: []string{"class:crash"}}
+}
+
 func contains(l []string, x string) bool {
 	for _, y := range l {
 		if y == x {
@@ -193,6 +272,7 @@ func contains(l []string, x string) bool {
 func cmdReplay(args []string) int {
 	fs := flag.NewFlagSet("replay", flag.ExitOnError)
 	quiet := fs.Bool("q", false, "")
+	child := fs.Bool("child", false, "run in this process even if the trace is recorded as crashing")
 	fs.Parse(args)
 	if fs.NArg() < 1 {
 		fmt.Fprintln(os.Stderr, "usage: archesim replay <file>")
@@ -223,6 +303,17 @@ func cmdReplay(args []string) int {
 		return sim.ReplaySpecial(&tr, *quiet)
 	}
 	want := tr.Violation
+	if want != nil && want.Class == "crash" && !*child {
+		// the recorded failure kills the process (fatal runtime error in unsafe code): run it in a child
+		crashed, detail := runsIntoCrash("", fs.Arg(0))
+		if crashed {
+			fmt.Printf("replay: the process died: %s\n", detail)
+			fmt.Printf("VIOLATION property=%s replay=%s\n", tr.Property, fs.Arg(0))
+			return 1
+		}
+		fmt.Println("replay: no crash")
+		return 0
+	}
 	tr.Violation = nil
 	v, e := sim.RunTrace(&tr, true)
 	if !*quiet {
@@ -432,7 +523,17 @@ func cmdRun(args []string) int {
 				if len(tail) > 3000 {
 					tail = tail[len(tail)-3000:]
 				}
-				a.crashes = append(a.crashes, fmt.Sprintf("worker %d (%s) died (%v) in run k=%d seed=%d\n%s", i, build, err, ls.K, ls.Seed, tail))
+				a.Unlock()
+				var rep *workerMsg
+				if ls.Seed != 0 && strings.Contains(stderr.String(), "github.com/mlange-42/arche/") {
+					rep = crashReport(bin, *prop, build, ls.Seed, thorough, *outdir)
+				}
+				a.Lock()
+				if rep != nil {
+					a.viols = append(a.viols, *rep)
+				} else {
+					a.crashes = append(a.crashes, fmt.Sprintf("worker %d (%s) died (%v) in run k=%d seed=%d\n%s", i, build, err, ls.K, ls.Seed, tail))
+				}
 				a.Unlock()
 			}
 		}(i)
